@@ -394,3 +394,14 @@ Theorem C04_read_slot_total : forall strict m objs pads q rl depth,
      (exists idx, 0 <= idx < 4294967296 /\ p = mkPtr true (fst q) 0 idx (mkOS 0 0) 0 KIface false false false /\ rl' = rl)).
 Proof. exact read_slot_total. Qed.
 Print Assumptions C04_read_slot_total.
+
+(* [T32] text / data read-back: NewData(v) / NewTextFromBytes(v) in any arena, then Ptr.Data() /
+   Ptr.Text() on the bytes of the new message return what was written (for a text: v, and the
+   data view shows the terminating NUL) *)
+Theorem C04_new_bytes_read_back : forall m sid v nul m' p,
+  inv m -> 0 <= sid < nsegs m -> zlen v < 536870911 ->
+  newBytes m sid v nul = Ok (m', p) ->
+  ptr_data (bm_data m') p = Ok (Some (if nul then v ++ [0] else v)) /\
+  (nul = true -> ptr_text (bm_data m') p = Ok (Some v)).
+Proof. exact new_bytes_read_back. Qed.
+Print Assumptions C04_new_bytes_read_back.
